@@ -220,6 +220,32 @@ func (x *ctx) lists(rng *rand.Rand) {
 			x.expect("BatchInvert/element", nzs[i], new(big.Int).ModInverse(modL(v), L), det)
 		}
 	}
+	// long lists of maximal unreduced values: any accumulation that is not re-reduced per step shows here
+	top := []*big.Int{new(big.Int).Sub(gen.Two255, big.NewInt(1)), new(big.Int).Sub(gen.Two255, big.NewInt(19)), new(big.Int).Sub(new(big.Int).Mul(L, big.NewInt(7)), big.NewInt(1)), new(big.Int).Add(new(big.Int).Mul(L, big.NewInt(7)), big.NewInt(3)), new(big.Int).Sub(gen.Two255, big.NewInt(8))}
+	for _, n := range []int{36, 37, 43, 73, 74, 100, 256, 1000} {
+		for mode := 0; mode < 2; mode++ {
+			var ss []*scalar.Scalar
+			sum, prod := new(big.Int), big.NewInt(1)
+			base := top[rng.IntN(len(top))]
+			for i := 0; i < n; i++ {
+				v := base
+				if mode == 1 {
+					v = top[rng.IntN(len(top))]
+					if rng.IntN(4) == 0 {
+						v = gen.Rand255(rng)
+					}
+				}
+				ss = append(ss, sc(v))
+				sum.Add(sum, v)
+				prod.Mul(prod, v)
+				prod.Mod(prod, L)
+			}
+			det := func() string { return fmt.Sprintf("n=%d maximal unreduced terms (mode %d, base %x)", n, mode, base) }
+			x.r.Eval([]byte(det()))
+			x.expect("Sum(long,unreduced)", scalar.New().Sum(ss), sum, det)
+			x.expect("Product(long,unreduced)", scalar.New().Product(ss), prod, det)
+		}
+	}
 	for _, u := range []uint64{0, 1, 2, 1 << 63, ^uint64(0), rng.Uint64()} {
 		x.expect("NewFromUint64", scalar.NewFromUint64(u), new(big.Int).SetUint64(u), func() string { return fmt.Sprint(u) })
 		x.expect("SetUint64", scalar.NewFromUint64(9).SetUint64(u), new(big.Int).SetUint64(u), func() string { return fmt.Sprint(u) })
